@@ -4,7 +4,7 @@ import re
 from cv import err, flow, rules
 from cv.rules import events_of, order_after_success
 
-from props import common
+from props import common, errscope
 
 TITLE = "Deleting versions and collecting garbage never harm what is kept"
 TECHNIQUE = 'static analysis: MIR dominance (plan before delete), dry-run guard, provenance of the deletion set, who-may-remove and reachability over the call graph, error-propagation classification'
@@ -277,7 +277,7 @@ def run(ck, w):
             n_sites += 1
             if s.fate in ("swallowed", "logged", "reported"):
                 k = (b.root, s.callee_short(), s.detail)
-                if k in ERR_ALLOWED:
+                if k in ERR_ALLOWED or errscope.allowed_kind_conversion(s):
                     continue
                 bad_sites.append(s)
     ck.floor("C05.6.n", "fallible storage/decoding call sites under referenced_blocks", n_sites, 8)
@@ -304,3 +304,63 @@ def run(ck, w):
     else:
         ck.ok(o)
     common.cli_option(ck, w, "C05.3c", "DeleteOptions", "dry_run", ("param", "dry_run"), floor=2)
+    _references_complete(ck, w)
+
+
+NARROWING = re.compile(r"Iterator::(rev|skip|take|step_by|filter|filter_map|take_while|skip_while|find|nth|last|map_while)$|<impl \[T\]>::(first|last|split_at|split_first|split_last|get)$|Vec::<T, A>::(truncate|pop|remove|swap_remove|drain|retain|dedup\w*)$")
+
+
+def _references_complete(ck, w):
+    lib = w.lib
+    o = ck.ob("C05.4c", "referenced_blocks visits every address of every entry of every hunk of every kept band (no narrowing adapter, no kind test)")
+    problems = []
+    fam = lib.family(REFD)
+    ins = []
+    for b in fam:
+        for e in b.events:
+            if e.bb not in b.live:
+                continue
+            if NARROWING.search(e.name) and not e.macro:
+                problems.append("%s in %s narrows what is visited" % (e.name.split("::")[-1], b.name))
+            if e.name.endswith("HashSet::<T, S, A>::insert"):
+                ins.append((b, e))
+            if (e.callee or "").endswith("EntryTrait::kind") or e.name.endswith("PartialEq>::eq") and "kind::Kind" in (e.term.get("self_ty") or ""):
+                problems.append("referenced_blocks looks at the entry kind")
+    if len(ins) != 1:
+        problems.append("expected one insert into the referenced set, found %d" % len(ins))
+    else:
+        b, e = ins[0]
+        src = flow.origins_x(lib, b, e.args[1], through_calls=[r"Iterator>::next$", r"IntoIterator>?::into_iter$", r"Iterator::flat_map$", r"Iterator::flatten$", r"Iterator::map$"])
+        ok_src = any("hash" in (x[3] if x[0] == "call" else x[2] if x[0] in ("param", "upvar") else ()) for x in src)
+        if not ok_src:
+            problems.append("inserted value is not an address hash: %s" % flow.origin_summary(src))
+    # every item produced by the address iteration is inserted: no path back to the loop head around the insert
+    if len(ins) == 1:
+        b, e = ins[0]
+        for nx in [x for x in b.events if x.bb in b.live and x.name.endswith("Iterator>::next")]:
+            src = flow.origins_x(lib, b, e.args[1], through_calls=[r"Iterator::flat_map$", r"Iterator::flatten$", r"Iterator::map$"])
+            if not any(x[0] == "call" and x[2] == nx.bb for x in src):
+                continue
+            for (sb, tested, arms, other) in flow.discriminant_switches(b, flow.result_carriers(b, nx.dest["l"])):
+                some_t = arms.get(1)
+                if some_t is not None and nx.bb in b.reachable(some_t, removed_nodes={e.bb}):
+                    problems.append("an address can be skipped: the insert into the referenced set is conditional")
+    # the band loop covers the whole `band_ids` slice
+    rb = w.body(REFD)
+    opens = rules.creators_of(rb, "band::Band::open")
+    if opens:
+        bsrc = flow.origins_x(lib, rb, opens[0].args[1], through_calls=[r"Iterator>::next$", r"IntoIterator>?::into_iter$"])
+        if not any(x[0] in ("param", "upvar") and x[1] == "band_ids" for x in bsrc):
+            problems.append("bands opened do not come from the band_ids parameter")
+    else:
+        problems.append("no Band::open")
+    if problems:
+        for m in sorted(set(problems)):
+            ck.fail(o, REFD, m, m)
+    else:
+        ck.ok(o)
+    db = w.body(DB)
+    o = ck.ob("C05.7c", "delete_bands: nothing is removed after the gc lock was released")
+    rel = events_of(lib, db, LOCK_RELEASE)
+    removals = events_of(lib, db, DEL_BLOCK) + events_of(lib, db, DEL_BAND)
+    rules.none_after(ck, o, db, rel, lambda e: e in removals, "removal")
